@@ -424,6 +424,18 @@ impl ResidencyDb {
         }
     }
 
+    /// Verification shim (compiled only by the Kani model checker): a dirty database holding one
+    /// page with one entry in bucket 0, built without the lookup/insert path.
+    #[cfg(kani)]
+    pub fn verif_with_single_page(path: PathBuf, entry: ResidencyEntry) -> Self {
+        let mut db = Self::new(path);
+        let mut page = ResidencyPage::new();
+        page.push(entry);
+        db.buckets[0].push(page);
+        db.dirty = true;
+        db
+    }
+
     /// Load from disk.
     pub fn load(path: &Path) -> Result<Self> {
         let mut db = Self::new(path.to_path_buf());
